@@ -91,7 +91,8 @@ class DatReader(TableReaderBase):
     splitre = re.compile(r'\s+')
     results = []
     for line in fileobj:
-      line = line[:-1]
+      # strip() removes the line ending; unconditionally dropping the last character first
+      # truncated the final value of a file that does not end with a newline (30.25 -> 30.2).
       line = line.strip()
       if len(line) == 0 or line[0] == '#':
         continue
